@@ -262,6 +262,30 @@ var spKinds = []spKind{
 	}),
 }
 
+// every expression form as the element of a literal that has one element per line (the restorer renders
+// Before, the decorations and After per node type)
+func init() {
+	for _, form := range []struct{ name, format string }{
+		{"unary-and", "&e%d"}, {"unary-minus", "-e%d"}, {"receive", "<-e%d"}, {"star", "*e%d"}, {"key-value", "e%d: 0"},
+		{"selector", "e%d.f"}, {"index", "e%d[0]"}, {"slice", "e%d[0:1]"}, {"slice3", "e%d[0:1:2]"}, {"assert", "e%d.(T)"},
+		{"paren", "(e%d)"}, {"call", "e%d(1)"}, {"composite", "T{e%d}"}, {"elided-composite", "{e%d}"}, {"binary", "e%d + 1"},
+		{"instance", "e%d[int, string]"}, {"func-lit", "func() { e%d() }"}, {"array-type", "[2]e%d"}, {"map-type", "map[e%d]int"},
+		{"chan-type", "chan<- e%d"}, {"func-type", "func(e%d) int"}, {"struct-type", "struct{ e%d int }"}, {"interface-type", "interface{ e%d() }"},
+		{"ellipsis-array", "[...]e%d{}"}, {"basic-lit", "\"e%d\""}, {"conversion", "[]byte(e%d)"},
+	} {
+		form := form
+		spKinds = append(spKinds, exprKind("CompositeLit.Elts("+form.name+")", func(n int) string {
+			return "package p\n\nvar x = []T{\n" + labels(n, func(i int) string { return "\t" + fmt.Sprintf(form.format, i) + "," }, "\n") + "\n}\n"
+		}, func(f *dst.File) []dst.Node {
+			var out []dst.Node
+			for _, s := range f.Decls[0].(*dst.GenDecl).Specs[0].(*dst.ValueSpec).Values[0].(*dst.CompositeLit).Elts {
+				out = append(out, s)
+			}
+			return out
+		}))
+	}
+}
+
 // stmtKind: a block whose elements are statements of one type (format holds the label e%d once)
 func stmtKind(name, format string) spKind {
 	return spKind{Name: "BlockStmt.List(" + name + ")", Src: func(n int) string {
